@@ -2,16 +2,18 @@ import Proofs.ParseMessageOpt
 /-! Dynamic update messages: the delete / prerequisite forms round-trip through the ANY / NONE classes. -/
 namespace Model
 
+variable {Rs : RelSpec}
+
 /-- `parseRR_of_rrExt` for either kind of message: whatever `_parse_rr_header` makes of the wire class -/
 theorem parseRR_of_rrExt_gen (cfg : PCfg) (horg : cfg.origin = none) (upd : Bool) (A post : Bytes) (t : CTable)
     (owner : Name) (rdtype rdclass ttl : Nat) (rd : RData) (q : Bytes × CTable) (sec count i : Nat) (st : PState)
     (rdclass' : Nat) (deleting' : Option Nat)
     (hhdr : parseRRHeader upd st.q sec rdclass rdtype = .ok (rdclass', deleting', false))
-    (hcur : st.cur = A.length) (hs : TableSound NameEqv A t) (hown : NameOk none owner) (hv : rd.valid)
+    (hcur : st.cur = A.length) (hs : TableSound Rs.R A t) (hown : NameOk Rs none owner) (hv : rd.valid Rs)
     (hshape : shapeOf rdtype = rd.shape) (ht : rdtype < 65536) (hc : rdclass < 65536)
     (httl : ttl ≤ ConstsC03.ttlClampAbove) (hns : rdtype ≠ ConstsC03.typeOPT ∧ rdtype ≠ ConstsC03.typeTSIG)
     (h : rrExt owner rdtype rdclass ttl none A.length t rd = .ok q) :
-    ∃ owner' rd', NameEqv owner' owner ∧ rd'.sim rd ∧
+    ∃ owner' rd', Rs.R owner' owner ∧ rd'.sim Rs rd ∧
       parseRR cfg upd (A ++ q.1 ++ post) sec count i st =
         .ok ({ st with cur := A.length + q.1.length }.setSection sec
           (sectionAdd (st.section sec) owner' rdclass' rdtype (rdCovers rdtype rd') deleting' (cfg.oneRRPerRRset || upd)
@@ -97,6 +99,8 @@ end Model
 
 namespace Model
 
+variable {Rs : RelSpec}
+
 theorem sectionAdd_force_none (L : List RRset) (name : Name) (rdclass rdtype covers : Nat) (d : Option Nat) :
     sectionAdd L name rdclass rdtype covers d true none =
       L ++ [{ name := name, rdclass := rdclass, rdtype := rdtype, covers := covers, deleting := d }] := by
@@ -129,17 +133,17 @@ theorem optTsig_setSection (st : PState) (sec : Nat) (l : List RRset) :
 theorem parseRR_empty (cfg : PCfg) (horg : cfg.origin = none) (A post : Bytes) (t : CTable) (r : RRset)
     (q : Bytes × CTable × Nat) (sec count i : Nat) (st : PState) (zc cls : Nat)
     (hhdr : parseRRHeader true st.q sec cls r.rdtype = .ok (zc, some cls, true))
-    (hcur : st.cur = A.length) (hs : TableSound NameEqv A t) (hown : NameOk none r.name) (ht : r.rdtype < 65536)
+    (hcur : st.cur = A.length) (hs : TableSound Rs.R A t) (hown : NameOk Rs none r.name) (ht : r.rdtype < 65536)
     (hns : r.rdtype ≠ ConstsC03.typeOPT ∧ r.rdtype ≠ ConstsC03.typeTSIG) (hrd : r.rdatas = [])
     (hdel : r.deleting = some cls) (hcls : cls < 65536)
     (h : rrsetExt A.length t none r = .ok q) :
-    ∃ owner', NameEqv owner' r.name ∧
+    ∃ owner', Rs.R owner' r.name ∧
       parseRR cfg true (A ++ q.1 ++ post) sec count i st =
         .ok (({ st with cur := A.length + q.1.length } : PState).setSection sec
           (st.section sec ++ [{ name := owner', rdclass := zc, rdtype := r.rdtype, covers := 0, deleting := some cls }]))
-      ∧ TableSound NameEqv (A ++ q.1) (t ++ q.2.1) ∧ q.2.2 = 1 := by
+      ∧ TableSound Rs.R (A ++ q.1) (t ++ q.2.1) ∧ q.2.2 = 1 := by
   obtain ⟨qe, qn, qk⟩ := q
-  have hok : r.namesOk none := ⟨hown, by intro rd hrd'; rw [hrd] at hrd'; simp at hrd'⟩
+  have hok : r.namesOk Rs none := ⟨hown, by intro rd hrd'; rw [hrd] at hrd'; simp at hrd'⟩
   have hsnd := rrsetExt_sound A t none r (qe, qn, qk) hok hs h
   unfold rrsetExt at h
   have hwc : r.wireClass = cls := by simp [RRset.wireClass, hdel]
@@ -185,14 +189,16 @@ end Model
 
 namespace Model
 
+variable {Rs : RelSpec}
+
 /-- a record set of an update message in the representation the parser produces (`deleting` carries a wire class of
 ANY/NONE, the RRset itself has the zone's class), one record (or one class/type-only record) per record set -/
-structure URRsetOk (zc sec : Nat) (r : RRset) : Prop where
-  name : NameOk none r.name
+structure URRsetOk (Rs : RelSpec) (zc sec : Nat) (r : RRset) : Prop where
+  name : NameOk Rs none r.name
   rdtype : r.rdtype < 65536
   notSpecial : r.rdtype ≠ ConstsC03.typeOPT ∧ r.rdtype ≠ ConstsC03.typeTSIG
   form :
-    (∃ rd, r.rdatas = [rd] ∧ rd.valid ∧ shapeOf r.rdtype = rd.shape ∧ rdCovers r.rdtype rd = r.covers ∧
+    (∃ rd, r.rdatas = [rd] ∧ rd.valid Rs ∧ shapeOf r.rdtype = rd.shape ∧ rdCovers r.rdtype rd = r.covers ∧
         r.ttl ≤ ConstsC03.ttlClampAbove ∧
         ((r.deleting = none ∧ r.rdclass < 65536 ∧ r.rdclass ≠ ConstsC03.classANY ∧ r.rdclass ≠ ConstsC03.classNONE) ∨
          (r.deleting = some ConstsC03.classNONE ∧ r.rdclass = zc ∧ sec ≠ 1)))
@@ -203,17 +209,17 @@ theorem class_consts : ConstsC03.classANY = 255 ∧ ConstsC03.classNONE = 254 :=
 
 /-- one record set (= one record) of an update message -/
 theorem parseRR_urrset (cfg : PCfg) (horg : cfg.origin = none) (zc sec : Nat) (hsec : sec ≠ 0) (r : RRset)
-    (hr : URRsetOk zc sec r) (A post : Bytes) (t : CTable) (q : Bytes × CTable × Nat) (count i : Nat) (st : PState)
-    (z : RRset) (hq : st.q = [z]) (hz : z.rdclass = zc) (hcur : st.cur = A.length) (hs : TableSound NameEqv A t)
+    (hr : URRsetOk Rs zc sec r) (A post : Bytes) (t : CTable) (q : Bytes × CTable × Nat) (count i : Nat) (st : PState)
+    (z : RRset) (hq : st.q = [z]) (hz : z.rdclass = zc) (hcur : st.cur = A.length) (hs : TableSound Rs.R A t)
     (h : rrsetExt A.length t none r = .ok q) :
-    ∃ r', r'.sim r ∧
+    ∃ r', r'.sim Rs r ∧
       parseRR cfg true (A ++ q.1 ++ post) sec count i st =
         .ok (({ st with cur := A.length + q.1.length } : PState).setSection sec (st.section sec ++ [r']))
-      ∧ TableSound NameEqv (A ++ q.1) (t ++ q.2.1) ∧ q.2.2 = 1 := by
+      ∧ TableSound Rs.R (A ++ q.1) (t ++ q.2.1) ∧ q.2.2 = 1 := by
   obtain ⟨cany, cnone⟩ := class_consts
   rcases hr.form with ⟨rd, hrd, hv, hshape, hcov, httl, hcl⟩ | ⟨hrd, httl, hcov, hrc, hdel⟩
   · -- a record
-    have hok : r.namesOk none := ⟨hr.name, by intro x hx; rw [hrd] at hx; simp at hx; subst hx; exact RData.valid_namesOk hv⟩
+    have hok : r.namesOk Rs none := ⟨hr.name, by intro x hx; rw [hrd] at hx; simp at hx; subst hx; exact RData.valid_namesOk hv⟩
     have hsnd := rrsetExt_sound A t none r q hok hs h
     obtain ⟨qe, qn, qk⟩ := q
     unfold rrsetExt at h
@@ -261,11 +267,11 @@ theorem parseRR_urrset (cfg : PCfg) (horg : cfg.origin = none) (zc sec : Nat) (h
 theorem parseSection_urrsets (cfg : PCfg) (horg : cfg.origin = none) (zc sec : Nat) (hsec : sec ≠ 0) (z : RRset)
     (hz : z.rdclass = zc) (rs : List RRset) :
     ∀ (A post : Bytes) (t : CTable) (q : Bytes × CTable) (count i : Nat) (st : PState) (L : List RRset),
-      st.cur = A.length → TableSound NameEqv A t → st.q = [z] → st.section sec = L →
-      (∀ r ∈ rs, URRsetOk zc sec r) → itemsExt none A.length t (rs.map (Item.rr sec)) = .ok q →
+      st.cur = A.length → TableSound Rs.R A t → st.q = [z] → st.section sec = L →
+      (∀ r ∈ rs, URRsetOk Rs zc sec r) → itemsExt none A.length t (rs.map (Item.rr sec)) = .ok q →
       ∃ rs', parseSection cfg true (A ++ q.1 ++ post) sec count rs.length i st =
           .ok (({ st with cur := A.length + q.1.length } : PState).setSection sec (L ++ rs'))
-        ∧ SimList RRset.sim rs' rs ∧ TableSound NameEqv (A ++ q.1) (t ++ q.2) := by
+        ∧ SimList (RRset.sim Rs) rs' rs ∧ TableSound Rs.R (A ++ q.1) (t ++ q.2) := by
   induction rs with
   | nil =>
     intro A post t q count i st L hcur hs _ hsecL _ h
@@ -301,7 +307,7 @@ theorem parseSection_urrsets (cfg : PCfg) (horg : cfg.origin = none) (zc sec : N
         rw [hW2, hp2, setSection_setSection]
         simp [hl, List.length_append, Nat.add_assoc, List.append_assoc]
 
-theorem rrCount_urrsets (zc sec : Nat) (rs : List RRset) (h : ∀ r ∈ rs, URRsetOk zc sec r) : rrCount rs = rs.length := by
+theorem rrCount_urrsets (zc sec : Nat) (rs : List RRset) (h : ∀ r ∈ rs, URRsetOk Rs zc sec r) : rrCount rs = rs.length := by
   induction rs with
   | nil => rfl
   | cons r rest ih =>
@@ -316,14 +322,16 @@ end Model
 
 namespace Model
 
+variable {Rs : RelSpec}
+
 /-- the zone section of an update message: exactly one SOA-typed entry of a non-meta class -/
-theorem parseQuestions_zone (cfg : PCfg) (horg : cfg.origin = none) (z : RRset) (hz : QOk z)
+theorem parseQuestions_zone (cfg : PCfg) (horg : cfg.origin = none) (z : RRset) (hz : QOk Rs z)
     (hsoa : z.rdtype = ConstsC03.typeSOA) (hmeta : z.rdclass ∉ ConstsC03.metaclasses)
     (A post : Bytes) (t : CTable) (q : Bytes × CTable) (st : PState) (hcur : st.cur = A.length) (hq0 : st.q = [])
-    (hs : TableSound NameEqv A t)
+    (hs : TableSound Rs.R A t)
     (h : itemsExt none A.length t [Item.q z.name z.rdtype z.rdclass] = .ok q) :
     ∃ z', parseQuestions cfg true (A ++ q.1 ++ post) 1 st = .ok { st with cur := A.length + q.1.length, q := [z'] }
-      ∧ z'.sim z ∧ z'.rdclass = z.rdclass ∧ TableSound NameEqv (A ++ q.1) (t ++ q.2) := by
+      ∧ z'.sim Rs z ∧ z'.rdclass = z.rdclass ∧ TableSound Rs.R (A ++ q.1) (t ++ q.2) := by
   simp only [itemsExt, itemExt] at h
   cases h1 : nameExt A.length t z.name none with
   | none => rw [h1] at h; simp at h
@@ -356,21 +364,21 @@ theorem parseQuestions_zone (cfg : PCfg) (horg : cfg.origin = none) (z : RRset) 
       simpa [List.append_assoc] using this
 
 /-- well-formed dynamic update message in the parser's representation (absolute names, no OPT/TSIG) -/
-structure UMsgOk (m : Message) : Prop where
+structure UMsgOk (Rs : RelSpec) (m : Message) : Prop where
   origin : m.origin = none
   id : m.id < 65536
   flags : m.flags < 65536
   isUpd : isUpdate m.flags = true
   noOpt : m.opt = none
   noTsig : m.tsig = none
-  zone : ∃ z, m.q = [z] ∧ QOk z ∧ z.rdtype = ConstsC03.typeSOA ∧ z.rdclass ∉ ConstsC03.metaclasses ∧
-    (∀ r ∈ m.an, URRsetOk z.rdclass 1 r) ∧ (∀ r ∈ m.au, URRsetOk z.rdclass 2 r) ∧ (∀ r ∈ m.ad, URRsetOk z.rdclass 3 r)
+  zone : ∃ z, m.q = [z] ∧ QOk Rs z ∧ z.rdtype = ConstsC03.typeSOA ∧ z.rdclass ∉ ConstsC03.metaclasses ∧
+    (∀ r ∈ m.an, URRsetOk Rs z.rdclass 1 r) ∧ (∀ r ∈ m.au, URRsetOk Rs z.rdclass 2 r) ∧ (∀ r ∈ m.ad, URRsetOk Rs z.rdclass 3 r)
   counts : m.an.length < 65536 ∧ m.au.length < 65536 ∧ m.ad.length < 65536
 
 /-- render-then-parse of a dynamic update message -/
-theorem parse_toWire_update (m : Message) (lim : Nat) (w : Bytes) (hok : UMsgOk m) (h : m.toWire lim false = .ok w)
+theorem parse_toWire_update (m : Message) (lim : Nat) (w : Bytes) (hok : UMsgOk Rs m) (h : m.toWire lim false = .ok w)
     (cfg : PCfg) (horg : cfg.origin = none) :
-    ∃ m', parseMessage cfg w = .ok m' ∧ m'.sim m := by
+    ∃ m', parseMessage cfg w = .ok m' ∧ m'.sim Rs m := by
   obtain ⟨z, hmq, hzq, hsoa, hmeta, han, hau, had⟩ := hok.zone
   obtain ⟨can, cau, cad⟩ := hok.counts
   obtain ⟨q, hq, hw⟩ := toWire_shape m lim w hok.noOpt hok.noTsig h
@@ -440,7 +448,7 @@ theorem parse_toWire_update (m : Message) (lim : Nat) (w : Bytes) (hok : UMsgOk 
           -- update
           have hlA2 : (Hd ++ qq.1 ++ qa.1).length = 12 + (qq.1 ++ qa.1).length := by simp [hHdl] <;> omega
           rw [← hlA2] at hqu
-          have hsnda' : TableSound NameEqv (Hd ++ qq.1 ++ qa.1) ([] ++ (qq.2 ++ qa.2)) := by
+          have hsnda' : TableSound Rs.R (Hd ++ qq.1 ++ qa.1) ([] ++ (qq.2 ++ qa.2)) := by
             simpa [List.append_assoc] using hsnda
           obtain ⟨au', hpu, hsu, hsndu⟩ := parseSection_urrsets cfg horg z.rdclass 2 (by omega) z' hzc m.au (Hd ++ qq.1 ++ qa.1)
             qd.1 ([] ++ (qq.2 ++ qa.2)) qu m.au.length 0
@@ -451,7 +459,7 @@ theorem parse_toWire_update (m : Message) (lim : Nat) (w : Bytes) (hok : UMsgOk 
           -- additional
           have hlA3 : (Hd ++ qq.1 ++ qa.1 ++ qu.1).length = 12 + (qq.1 ++ qa.1 ++ qu.1).length := by simp [hHdl] <;> omega
           rw [← hlA3] at hqd
-          have hsndu' : TableSound NameEqv (Hd ++ qq.1 ++ qa.1 ++ qu.1) ([] ++ (qq.2 ++ qa.2 ++ qu.2)) := by
+          have hsndu' : TableSound Rs.R (Hd ++ qq.1 ++ qa.1 ++ qu.1) ([] ++ (qq.2 ++ qa.2 ++ qu.2)) := by
             simpa [List.append_assoc] using hsndu
           obtain ⟨ad', hpd, hsd, _⟩ := parseSection_urrsets cfg horg z.rdclass 3 (by omega) z' hzc m.ad (Hd ++ qq.1 ++ qa.1 ++ qu.1)
             [] ([] ++ (qq.2 ++ qa.2 ++ qu.2)) qd m.ad.length 0
@@ -479,6 +487,8 @@ theorem parse_toWire_update (m : Message) (lim : Nat) (w : Bytes) (hok : UMsgOk 
 end Model
 
 namespace Model
+
+variable {Rs : RelSpec}
 
 /-- the parser's representation of the record an RRset renders to in an update message whose zone class is `zc`:
 a wire class of ANY/NONE is carried in `deleting` and the RRset takes the zone's class -/
